@@ -403,9 +403,11 @@ def run_near(case):
     nd, t, inv = case["nd"], case["type"], case["inv"]
     viol, sigs, n = [], [], 0
     disps = np.arange(-1, -1 + nd)
-    for base in (np.float32(1.0), np.float32(80.0)):
+    for base in (np.float32(1.0), np.float32(80.0), np.float32(2.0 ** 32)):
+        # 2^32: ssd costs of 16-bit imagery, where x + 1 == x in float32 (a finite "larger than everything" sentinel
+        # built from the largest cost does not exist)
         lo = np.nextafter(np.nextafter(base, np.float32(0)), np.float32(0))
-        alpha = [np.nan, lo, np.nextafter(lo, np.float32(100)), base]
+        alpha = [np.nan, lo, np.nextafter(lo, np.float32(1e30)), base]
         vecs = vectors(nd, alpha)
         costs = vecs.reshape(1, len(vecs), nd)
         cv = D.cost_volume(costs, disps, type_measure=t, cmax=case["cmax"])
